@@ -267,7 +267,7 @@ def complete(job, runid, target, timing, status):
     elif target in job.get('doing'):
         job.get('doing').remove(target)
 
-    if not (job.get('todo') or job.get('doing')):
+    if job in que and not (job.get('todo') or job.get('doing')):
         que.remove(job)
         job.set('status', State.waiting)
         pass
@@ -358,6 +358,10 @@ def defer():
 def find(job) -> dawgie.pl.dag.Node:
     jobid = job if isinstance(job, str) else job.tab
     avail = list(filter(lambda j: j.tag == jobid, que))
+    if not avail and dawgie.pl.schedule.ae is not None:
+        # work still in flight for a job that already left the queue
+        for root in dawgie.pl.schedule.ae.at:
+            avail.extend(root.locate(jobid))
     return avail[0]
 
 
